@@ -12,7 +12,8 @@ def check_case(case):
     ref = R.scd(pat)
     out = []
     try:
-        got = core.sp(seq).get_SCD()
+        with core.istate(seq):
+            got = core.sp(seq).get_SCD()
     except Exception as e:  # noqa
         return [{"key": "exception", "what": "get_SCD raised %r for %s" % (e, seq), "case": case}], ref, None
     if not core.close(got, ref, 1e-9, 1e-12):
